@@ -318,8 +318,17 @@ type Gate struct {
 	arrived chan struct{} // closed when a write reached the gate
 	open    chan struct{} // closed by Open
 	fail    bool
+	off     bool // guarded by the owning parkSet's lock
+	set     *parkSet
 	aOnce   sync.Once
 	oOnce   sync.Once
+}
+
+// Disarm makes the gate ignore writes from now on (a gate no write has reached must not catch a later, unrelated one).
+func (g *Gate) Disarm() {
+	g.set.mu.Lock()
+	g.off = true
+	g.set.mu.Unlock()
 }
 
 // Arrived is closed once a write is waiting at (or has passed) the gate.
@@ -359,7 +368,7 @@ func (p *parkSet) add(op, sub string, nth int) *Gate {
 	if nth < 1 {
 		nth = 1
 	}
-	g := &Gate{op: op, sub: sub, nth: nth, arrived: make(chan struct{}), open: make(chan struct{})}
+	g := &Gate{op: op, sub: sub, nth: nth, arrived: make(chan struct{}), open: make(chan struct{}), set: p}
 	p.mu.Lock()
 	p.gates = append(p.gates, g)
 	p.mu.Unlock()
@@ -371,7 +380,7 @@ func (p *parkSet) match(op, sub string) *Gate {
 	p.mu.Lock()
 	defer p.mu.Unlock()
 	for _, g := range p.gates {
-		if g.seen >= g.nth || (g.op != "" && g.op != op) || (g.sub != "" && g.sub != sub) {
+		if g.off || g.seen >= g.nth || (g.op != "" && g.op != op) || (g.sub != "" && g.sub != sub) {
 			continue
 		}
 		g.seen++
